@@ -1008,9 +1008,10 @@ class MarkovChainMonteCarloMethod:
         if not display_progress:
             progress_bar_class = DummyProgressBar
             sampling_stage_bar_class = DummyProgressBar
-        elif progress_bar_class is None:
-            progress_bar_class = SequenceProgressBar
+        else:
             sampling_stage_bar_class = LabelledSequenceProgressBar
+            if progress_bar_class is None:
+                progress_bar_class = SequenceProgressBar
         if n_process is None:
             n_process = os.cpu_count()
         n_chain = len(init_states)
